@@ -258,17 +258,36 @@ Proof.
     + apply (IH _ _ H).
 Qed.
 
+Lemma case_pairs_from r last cats cases : forall covered pc,
+  case_pairs ueqb r last cats cases covered = Ok pc -> Forall (fun p => e_from (snd p) = last) (fst pc).
+Proof.
+  induction cases as [|k rest IH]; intros covered pc H; cbn [case_pairs] in H.
+  - inversion H; subst. constructor.
+  - destruct (find _ cats) as [c|].
+    + destruct (case_cond r k c) as [cd|e]; cbn [bind] in H; [|discriminate].
+      destruct (case_pairs ueqb r last cats rest (c_uuid c :: covered)) as [more|e] eqn:Em; cbn [bind] in H; [|discriminate].
+      inversion H; subst. cbn [fst]. constructor; [reflexivity|apply (IH _ _ Em)].
+    + apply (IH _ _ H).
+Qed.
+
+Lemma noresp_pairs_from (r : srouter U) (last : tidU) : Forall (fun p => e_from (snd p) = last) (noresp_pairs r last).
+Proof.
+  unfold noresp_pairs. destruct (sw_noresp r) as [c|]; [|constructor].
+  destruct (c_dest c); [constructor; [reflexivity|constructor]|].
+  destruct loose_exit_rows; constructor; [reflexivity|constructor].
+Qed.
+
 Lemma exit_edge_pairs_from n last prs :
   exit_edge_pairs ueqb n last = Ok prs -> Forall (fun p => e_from (snd p) = last) prs.
 Proof.
   unfold exit_edge_pairs. destruct (n_kind n) as [d|rk r|rs cats]; intros H.
   - inversion H; subst. constructor; [reflexivity|constructor].
   - unfold switch_pairs in H.
-    destruct (category_pairs ueqb r last (all_categories r) []) as [pc|e] eqn:Ec; cbn [bind] in H; [|discriminate].
+    destruct (if pairs_follow_cases then _ else _) as [pc|e] eqn:Ec; cbn [bind] in H; [|discriminate].
     inversion H; subst. rewrite !Forall_app. split; [|split].
-    + apply (category_pairs_from _ _ _ _ _ Ec).
+    + destruct pairs_follow_cases; [apply (case_pairs_from _ _ _ _ _ _ Ec)|apply (category_pairs_from _ _ _ _ _ Ec)].
     + destruct (mem_u ueqb _ _); constructor; [reflexivity|constructor].
-    + destruct (sw_noresp r); constructor; [reflexivity|constructor].
+    + apply noresp_pairs_from.
   - inversion H; subst. rewrite Forall_map. apply Forall_forall. intros c _. reflexivity.
 Qed.
 
@@ -358,13 +377,24 @@ Proof.
     + apply (Hrec _ _ _ _ (mem_u_false _ _ Ev) H).
 Qed.
 
-Lemma foldM_step_ext rec : rec_ext rec ->
-  forall prs st st', foldM (step ueqb nodes rec) prs st = Ok st' -> Ext st st'.
+(* an edge that leads nowhere: nothing, or (tree with loose_exit rows) one more row with a fresh id *)
+Lemma step_fx_ext rec : rec_ext rec ->
+  forall keep sn st p st', step_fx ueqb nodes keep sn rec st p = Ok st' -> Ext st st'.
 Proof.
-  intros Hrec prs. induction prs as [|p rest IH]; intros st st' H; cbn [foldM] in H.
+  intros Hrec keep sn st [d e] st' H. unfold step_fx in H. cbn [fst snd] in H.
+  destruct d as [d|]; [apply (step_ext rec Hrec st (Some d, e) st' H)|].
+  destruct (keep && negb (cond_blank (e_cond e))); inversion H; subst; [|apply Ext_refl].
+  constructor; cbn [st_vis st_done st_rows st_k]; try apply incl_refl;
+    [intros u Hu; left; exact Hu|intros u Hu; left; exact Hu|lia|cbn [map]; apply incl_tl, incl_refl].
+Qed.
+
+Lemma foldM_step_ext rec : rec_ext rec ->
+  forall keep sn prs st st', foldM (step_fx ueqb nodes keep sn rec) prs st = Ok st' -> Ext st st'.
+Proof.
+  intros Hrec keep sn prs. induction prs as [|p rest IH]; intros st st' H; cbn [foldM] in H.
   - inversion H; subst. apply Ext_refl.
-  - destruct (step ueqb nodes rec st p) as [st1|e] eqn:Es; [|discriminate].
-    eapply Ext_trans; [apply (step_ext rec Hrec _ _ _ Es)|apply (IH _ _ H)].
+  - destruct (step_fx ueqb nodes keep sn rec st p) as [st1|e] eqn:Es; [|discriminate].
+    eapply Ext_trans; [apply (step_fx_ext rec Hrec _ _ _ _ _ Es)|apply (IH _ _ H)].
 Qed.
 
 Lemma visit_ext : forall fuel, rec_ext (visit ueqb nodes fuel).
@@ -421,13 +451,26 @@ Proof.
     + apply (Hrec _ _ _ _ (mem_u_false _ _ Ev) (mem_u_false _ _ Ed) (conj Hnd Hok) H).
 Qed.
 
-Lemma foldM_step_inv rec : rec_inv rec ->
-  forall prs st st', Inv st -> foldM (step ueqb nodes rec) prs st = Ok st' -> Inv st'.
+Lemma step_fx_inv rec : rec_inv rec ->
+  forall keep sn st p st', Inv st -> step_fx ueqb nodes keep sn rec st p = Ok st' -> Inv st'.
 Proof.
-  intros Hrec prs. induction prs as [|p rest IH]; intros st st' Hi H; cbn [foldM] in H.
+  intros Hrec keep sn st [d e] st' [Hnd Hok] H. unfold step_fx in H. cbn [fst snd] in H.
+  destruct d as [d|]; [apply (step_inv rec Hrec st (Some d, e) st' (conj Hnd Hok) H)|].
+  destruct (keep && negb (cond_blank (e_cond e))); inversion H; subst; [|split; assumption].
+  unfold Inv. cbn [st_rows map loose_row r_id]. split.
+  - constructor; [|exact Hnd]. intros Hin. rewrite Forall_forall in Hok.
+    apply Hok in Hin. cbn [id_ok] in Hin. lia.
+  - constructor; [cbn [id_ok st_k]; lia|].
+    eapply Forall_impl; [|exact Hok]. intros t Ht. destruct t; cbn [id_ok st_done st_k] in *; [exact Ht|exact Ht|lia].
+Qed.
+
+Lemma foldM_step_inv rec : rec_inv rec ->
+  forall keep sn prs st st', Inv st -> foldM (step_fx ueqb nodes keep sn rec) prs st = Ok st' -> Inv st'.
+Proof.
+  intros Hrec keep sn prs. induction prs as [|p rest IH]; intros st st' Hi H; cbn [foldM] in H.
   - inversion H; subst. exact Hi.
-  - destruct (step ueqb nodes rec st p) as [st1|e] eqn:Es; [|discriminate].
-    apply (IH _ _ (step_inv rec Hrec _ _ _ Hi Es) H).
+  - destruct (step_fx ueqb nodes keep sn rec st p) as [st1|e] eqn:Es; [|discriminate].
+    apply (IH _ _ (step_fx_inv rec Hrec _ _ _ _ _ Hi Es) H).
 Qed.
 
 Lemma visit_inv : forall fuel, rec_inv (visit ueqb nodes fuel).
@@ -437,7 +480,7 @@ Proof.
   destruct (initiate_row_models n sn pe) as [rms|e] eqn:Ei; cbn [bind] in H; [|discriminate].
   destruct (exit_edge_pairs ueqb n (last_row_id n sn)) as [prs|e]; cbn [bind] in H; [|discriminate].
   destruct (foldM _ (rev prs) _) as [st1|e] eqn:Ef; cbn [bind] in H; [|discriminate].
-  pose proof (foldM_step_ext _ (visit_ext fuel) _ _ _ Ef) as [v1 d1 nd1 nv1 k1 i1].
+  pose proof (foldM_step_ext _ (visit_ext fuel) _ _ _ _ _ Ef) as [v1 d1 nd1 nv1 k1 i1].
   apply (foldM_step_inv _ IH) in Ef; [|split; assumption].
   destruct Ef as [Hnd1 Hok1]. cbn [st_vis st_done st_rows st_k] in *.
   assert (Hn1 : ~ In (n_uuid n) (st_done st1)).
@@ -515,17 +558,29 @@ Proof.
     + apply (Hrec _ _ _ _ _ Efn (mem_u_false _ _ Ev) Hp Hr (or_intror (or_intror He)) H).
 Qed.
 
-Lemma foldM_step_refs rec : rec_ext rec -> rec_refs rec ->
-  forall prs st st' P, Promise st P -> Refs (st_rows st) P ->
-    Forall (fun p => In (e_from (snd p)) P) prs ->
-    foldM (step ueqb nodes rec) prs st = Ok st' -> Refs (st_rows st') P.
+Lemma step_fx_refs rec : rec_refs rec ->
+  forall keep sn st p st' P, Promise st P -> Refs (st_rows st) P -> In (e_from (snd p)) P ->
+    step_fx ueqb nodes keep sn rec st p = Ok st' -> Refs (st_rows st') P.
 Proof.
-  intros Hext Hrec prs. induction prs as [|p rest IH]; intros st st' P Hp Hr Hf H; cbn [foldM] in H.
+  intros Hrec keep sn st [d e] st' P Hp Hr He H. unfold step_fx in H. cbn [fst snd] in *.
+  destruct d as [d|]; [apply (step_refs rec Hrec st (Some d, e) st' P Hp Hr He H)|].
+  destruct (keep && negb (cond_blank (e_cond e))); inversion H; subst st'; [|exact Hr].
+  cbn [st_rows]. unfold Refs. cbn [map]. constructor.
+  - unfold row_refs, loose_row. cbn [r_edges r_goto map app]. constructor; [right; right; exact He|constructor].
+  - eapply RefsI_mono; [| |exact Hr]; [apply incl_tl, incl_refl|intros x Hx; right; exact Hx].
+Qed.
+
+Lemma foldM_step_refs rec : rec_ext rec -> rec_refs rec ->
+  forall keep sn prs st st' P, Promise st P -> Refs (st_rows st) P ->
+    Forall (fun p => In (e_from (snd p)) P) prs ->
+    foldM (step_fx ueqb nodes keep sn rec) prs st = Ok st' -> Refs (st_rows st') P.
+Proof.
+  intros Hext Hrec keep sn prs. induction prs as [|p rest IH]; intros st st' P Hp Hr Hf H; cbn [foldM] in H.
   - inversion H; subst. exact Hr.
   - inversion Hf as [|p0 l0 Hf1 Hf2]; subst.
-    destruct (step ueqb nodes rec st p) as [st1|e] eqn:Es; [|discriminate].
-    apply (IH st1 st' P); [|apply (step_refs rec Hrec _ _ _ _ Hp Hr Hf1 Es)|exact Hf2|exact H].
-    apply (Promise_ext st); [apply (step_ext rec Hext _ _ _ Es)|exact Hp].
+    destruct (step_fx ueqb nodes keep sn rec st p) as [st1|e] eqn:Es; [|discriminate].
+    apply (IH st1 st' P); [|apply (step_fx_refs rec Hrec _ _ _ _ _ _ Hp Hr Hf1 Es)|exact Hf2|exact H].
+    apply (Promise_ext st); [apply (step_fx_ext rec Hext _ _ _ _ _ Es)|exact Hp].
 Qed.
 
 Lemma visit_refs : forall fuel, rec_refs (visit ueqb nodes fuel).
@@ -535,9 +590,9 @@ Proof.
   destruct (initiate_row_models n sn pe) as [rms|e] eqn:Ei; cbn [bind] in H; [|discriminate].
   destruct (exit_edge_pairs ueqb n (last_row_id n sn)) as [prs|e] eqn:Ee; cbn [bind] in H; [|discriminate].
   destruct (foldM _ (rev prs) _) as [st1|e] eqn:Ef; cbn [bind] in H; [|discriminate].
-  pose proof (foldM_step_ext _ (visit_ext fuel) _ _ _ Ef) as [v1 d1 nd1 nv1 k1 i1].
+  pose proof (foldM_step_ext _ (visit_ext fuel) _ _ _ _ _ Ef) as [v1 d1 nd1 nv1 k1 i1].
   set (P' := last_row_id n sn :: TNode (n_uuid n) sn :: P).
-  apply (foldM_step_refs _ (visit_ext fuel) IH _ _ _ P') in Ef.
+  apply (foldM_step_refs _ (visit_ext fuel) IH _ _ _ _ _ P') in Ef.
   - cbn [st_vis st_done st_rows st_k] in *.
     pose proof (initiate_ids _ _ _ _ Ei) as Hids. pose proof (initiate_refs _ _ _ _ Ei) as Hrr.
     inversion H; subst st'. cbn [st_rows]. unfold Refs, RefsI. rewrite map_app, Hids.
@@ -568,6 +623,7 @@ Section RowPred.
 Variable Q : trow -> Prop.
 Hypothesis Q_init : forall n sn pe rms, initiate_row_models n sn pe = Ok rms -> Forall Q rms.
 Hypothesis Q_goto : forall k u cs s e, Q (goto_row k (TNode u cs) s e).
+Hypothesis Q_loose : forall k sn e, Q (loose_row k sn e).
 Hypothesis Q_prepend : forall r e, Q r ->
   Q {| r_id := r_id r; r_type := r_type r; r_edges := e :: r_edges r; r_goto := r_goto r; r_pay := r_pay r |}.
 
@@ -601,13 +657,22 @@ Proof.
     + apply (Hrec _ _ _ _ Hq H).
 Qed.
 
-Lemma foldM_step_pred rec : rec_pred rec ->
-  forall prs st st', Forall Q (st_rows st) -> foldM (step ueqb nodes rec) prs st = Ok st' -> Forall Q (st_rows st').
+Lemma step_fx_pred rec : rec_pred rec ->
+  forall keep sn st p st', Forall Q (st_rows st) -> step_fx ueqb nodes keep sn rec st p = Ok st' -> Forall Q (st_rows st').
 Proof.
-  intros Hrec prs. induction prs as [|p rest IH]; intros st st' Hq H; cbn [foldM] in H.
+  intros Hrec keep sn st [d e] st' Hq H. unfold step_fx in H. cbn [fst snd] in H.
+  destruct d as [d|]; [apply (step_pred rec Hrec st (Some d, e) st' Hq H)|].
+  destruct (keep && negb (cond_blank (e_cond e))); inversion H; subst; [|exact Hq].
+  cbn [st_rows]. constructor; [apply Q_loose|exact Hq].
+Qed.
+
+Lemma foldM_step_pred rec : rec_pred rec ->
+  forall keep sn prs st st', Forall Q (st_rows st) -> foldM (step_fx ueqb nodes keep sn rec) prs st = Ok st' -> Forall Q (st_rows st').
+Proof.
+  intros Hrec keep sn prs. induction prs as [|p rest IH]; intros st st' Hq H; cbn [foldM] in H.
   - inversion H; subst. exact Hq.
-  - destruct (step ueqb nodes rec st p) as [st1|e] eqn:Es; [|discriminate].
-    apply (IH _ _ (step_pred rec Hrec _ _ _ Hq Es) H).
+  - destruct (step_fx ueqb nodes keep sn rec st p) as [st1|e] eqn:Es; [|discriminate].
+    apply (IH _ _ (step_fx_pred rec Hrec _ _ _ _ _ Hq Es) H).
 Qed.
 
 Lemma visit_pred : forall fuel, rec_pred (visit ueqb nodes fuel).
@@ -627,14 +692,15 @@ End Dfs.
 Lemma to_rows_tmp_pred (Q : trow -> Prop) :
   (forall n sn pe rms, initiate_row_models n sn pe = Ok rms -> Forall Q rms) ->
   (forall k u cs s e, Q (goto_row k (TNode u cs) s e)) ->
+  (forall k sn e, Q (loose_row k sn e)) ->
   (forall r e, Q r -> Q {| r_id := r_id r; r_type := r_type r; r_edges := e :: r_edges r; r_goto := r_goto r; r_pay := r_pay r |}) ->
   forall nodes rows, to_rows_tmp ueqb nodes = Ok rows -> Forall Q rows.
 Proof.
-  intros Q1 Q2 Q3 nodes rows. unfold to_rows_tmp. destruct nodes as [|n0 rest].
+  intros Q1 Q2 Q2' Q3 nodes rows. unfold to_rows_tmp. destruct nodes as [|n0 rest].
   - intros H; inversion H; subst. constructor.
   - destruct (visit ueqb (n0 :: rest) _ n0 start_edge state0) as [st|e] eqn:Ev; cbn [bind]; [|discriminate].
     intros H; inversion H; subst.
-    apply (visit_pred (n0 :: rest) Q Q1 Q2 Q3 _ n0 start_edge state0 st (Forall_nil _) Ev).
+    apply (visit_pred (n0 :: rest) Q Q1 Q2 Q2' Q3 _ n0 start_edge state0 st (Forall_nil _) Ev).
 Qed.
 
 (* go_to targets are rows of nodes (never "start"); only go_to rows have targets *)
@@ -667,6 +733,7 @@ Proof.
     intros r Hr. unfold goto_targets_ok. cbn beta in Hr. rewrite Hr. constructor.
   - intros k u cs s e. unfold goto_targets_ok, goto_row. cbn [r_goto].
     constructor; [discriminate|constructor].
+  - intros k sn e. unfold goto_targets_ok, loose_row. cbn [r_goto]. constructor.
   - intros r e Hr. exact Hr.
 Qed.
 
@@ -1066,11 +1133,23 @@ Proof.
   - inversion H; subst. apply (case_cond_err _ _ _ _ Ec).
 Qed.
 
+Lemma case_pairs_err (r : srouter U) (last : tidU) cats cases : forall covered e,
+  case_pairs ueqb r last cats cases covered = Err e -> e = ECrash.
+Proof.
+  induction cases as [|k rest IH]; intros covered e H; cbn [case_pairs] in H; [discriminate|].
+  destruct (find _ cats) as [c|]; [|apply (IH _ _ H)].
+  destruct (case_cond r k c) as [cd|e'] eqn:Ec; cbn [bind] in H.
+  - destruct (case_pairs ueqb r last cats rest (c_uuid c :: covered)) as [more|e''] eqn:Em; cbn [bind] in H; [discriminate|].
+    inversion H; subst. apply (IH _ _ Em).
+  - inversion H; subst. apply (case_cond_err _ _ _ _ Ec).
+Qed.
+
 Lemma exit_edge_pairs_err (n : node U) (last : tidU) e : exit_edge_pairs ueqb n last = Err e -> e = ECrash.
 Proof.
   unfold exit_edge_pairs. destruct (n_kind n) as [d|rk r|rs cats]; try discriminate.
-  unfold switch_pairs. destruct (category_pairs ueqb r last (all_categories r) []) as [pc|e'] eqn:Ec; cbn [bind]; [discriminate|].
-  intros H; inversion H; subst. apply (category_pairs_err _ _ _ _ _ Ec).
+  unfold switch_pairs. destruct (if pairs_follow_cases then _ else _) as [pc|e'] eqn:Ec; cbn [bind]; [discriminate|].
+  intros H; inversion H; subst.
+  destruct pairs_follow_cases; [apply (case_pairs_err _ _ _ _ _ _ Ec)|apply (category_pairs_err _ _ _ _ _ Ec)].
 Qed.
 
 Lemma prepend_edge_some (t : tidU) e (rows : list trow) :
@@ -1135,15 +1214,25 @@ Proof.
     + apply (Hrec _ _ _ Efn (mem_u_false _ _ Ev) Hl Hd).
 Qed.
 
-Lemma foldM_step_err f rec : rec_ext rec -> rec_err f rec ->
-  forall prs st, (List.length (unv st) <= f)%nat -> Done st ->
-    match foldM (step ueqb nodes rec) prs st with Ok s' => Done s' | Err er => er = ECrash end.
+Lemma step_fx_err f rec : rec_ext rec -> rec_err f rec ->
+  forall keep sn st p, (List.length (unv st) <= f)%nat -> Done st ->
+    match step_fx ueqb nodes keep sn rec st p with Ok s' => Done s' | Err er => er = ECrash end.
 Proof.
-  intros Hext Hrec prs. induction prs as [|p rest IH]; intros st Hl Hd; cbn [foldM]; [exact Hd|].
-  pose proof (step_err f rec Hext Hrec st p Hl Hd) as Hs.
-  destruct (step ueqb nodes rec st p) as [st1|er] eqn:Es; [|exact Hs].
+  intros Hext Hrec keep sn st [d e] Hl Hd. unfold step_fx. cbn [fst snd].
+  destruct d as [d|]; [apply (step_err f rec Hext Hrec st (Some d, e) Hl Hd)|].
+  destruct (keep && negb (cond_blank (e_cond e))); [|exact Hd].
+  intros c csn' Hc Hcd Hcs. cbn [st_done st_rows map] in *. right. apply (Hd c csn' Hc Hcd Hcs).
+Qed.
+
+Lemma foldM_step_err f rec : rec_ext rec -> rec_err f rec ->
+  forall keep sn prs st, (List.length (unv st) <= f)%nat -> Done st ->
+    match foldM (step_fx ueqb nodes keep sn rec) prs st with Ok s' => Done s' | Err er => er = ECrash end.
+Proof.
+  intros Hext Hrec keep sn prs. induction prs as [|p rest IH]; intros st Hl Hd; cbn [foldM]; [exact Hd|].
+  pose proof (step_fx_err f rec Hext Hrec keep sn st p Hl Hd) as Hs.
+  destruct (step_fx ueqb nodes keep sn rec st p) as [st1|er] eqn:Es; [|exact Hs].
   apply IH; [|exact Hs].
-  pose proof (step_ext nodes rec Hext _ _ _ Es) as [v1 _ _ _ _ _]. pose proof (unv_mono _ _ v1). lia.
+  pose proof (step_fx_ext nodes rec Hext _ _ _ _ _ Es) as [v1 _ _ _ _ _]. pose proof (unv_mono _ _ v1). lia.
 Qed.
 
 Lemma visit_err : forall fuel, rec_err fuel (visit ueqb nodes fuel).
@@ -1172,9 +1261,9 @@ Proof.
         destruct (mem_u ueqb y (st_vis st)) eqn:E; [|reflexivity].
         apply mem_u_true in E. assert (In y (n_uuid n :: st_vis st)) as Hy' by (right; exact E).
         apply mem_u_in_iff in Hy'. congruence. }
-    pose proof (foldM_step_err fuel _ (visit_ext nodes fuel) IH (rev prs) s0 Hl0 Hd) as Hf.
+    pose proof (foldM_step_err fuel _ (visit_ext nodes fuel) IH (loose_exit_rows && has_free_cases n) sn (rev prs) s0 Hl0 Hd) as Hf.
     destruct (foldM _ (rev prs) s0) as [st1|e] eqn:Ef; cbn [bind]; [|exact Hf].
-    pose proof (foldM_step_ext nodes _ (visit_ext nodes fuel) _ _ _ Ef) as [v1 d1 nd1 nv1 k1 i1].
+    pose proof (foldM_step_ext nodes _ (visit_ext nodes fuel) _ _ _ _ _ Ef) as [v1 d1 nd1 nv1 k1 i1].
     intros c csn Hc Hcd Hcs. cbn [st_done st_rows] in *. rewrite map_app. apply in_or_app.
     destruct Hcd as [Hcd|Hcd].
     + left. assert (c = n) by (rewrite <- Hcd in Hc; rewrite Hfn in Hc; inversion Hc; reflexivity). subst c.
